@@ -937,6 +937,18 @@ def twin_spec(rng, spec):
     return twin
 
 
+def broken_twin(spec):
+    """The same API with method settings naming a method that does not exist: its generation FAILS (MethodSettingsError)
+    after the schema was built half-way.  Used as a decoy: a failed build in a persistent worker must leave nothing behind."""
+    import copy
+    bad = copy.deepcopy(spec)
+    y = bad.get("service_yaml") or {"type": "google.api.Service", "config_version": 3, "name": "x.example.com"}
+    bad["service_yaml"] = y
+    y.setdefault("publishing", {})["method_settings"] = [{"selector": bad["package"] + ".NoSuchService.NoSuchMethod",
+                                                          "auto_populated_fields": ["request_id"]}]
+    return bad
+
+
 MIXIN_RULES = {
     "google.longrunning.Operations": {
         "ListOperations": {"get": "/v1/{name=projects/*}/operations"},
